@@ -198,7 +198,8 @@ def Store.multiSource (s : Store) (weighted : Bool) (sources : List Nat) (target
   else
     sources.foldl (fun acc src => do
       let out ← acc
-      let r ← (s.singleSource weighted src target cutoff2 firstOnly withPaths).unwrap "multi_source: unwrap"
+      -- a failing search (`ContradictoryPaths`) is reported through the result, as `single_source` reports it
+      let r ← s.singleSource weighted src target cutoff2 firstOnly withPaths
       .ok (ainsert out src r)) (.ok [])
 
 /-- `all_pairs` -/
@@ -210,7 +211,8 @@ def Store.allPairs (s : Store) (weighted : Bool) (target : Option Nat) (cutoff2 
     | none => .ok none
   (List.range s.numberOfNodes).foldl (fun acc i => do
     let out ← acc
-    let r ← (s.runOne weighted i ti target cutoff2 firstOnly withPaths).unwrap "all_pairs_iter: unwrap"
+    -- `all_pairs_iter` / `all_pairs_par_iter` yield `Result`s; the first error is returned by `collect::<Result<..>>()?`
+    let r ← s.runOne weighted i ti target cutoff2 firstOnly withPaths
     let src ← Outcome.ofOption "all_pairs: get_node_by_index().unwrap()" (s.getNodeByIndex i)
     let named ← s.spToNames r
     .ok (ainsert out src.name named)) (.ok [])
